@@ -63,6 +63,24 @@ pub fn c10(o: &Opts) -> i32 {
     // a generator reused across depths and positions, as run_count_positions does
     let mut used = MoveGenerator::new();
     let mut evaluations = 0u64;
+    // sparse positions to depth 5: the same position recurs at different remaining depths inside one subtree
+    if o.replay.is_none() {
+        for fen in ["8/8/8/8/3K4/8/8/k7 w - - 0 1", "8/8/4k3/8/8/2K5/8/8 w - - 0 1", "8/8/8/3k4/8/3K4/3P4/8 w - - 0 1", "8/3p4/3k4/8/8/3K4/3P4/8 b - - 0 1"] {
+            let p = Pos::from_fen(fen).unwrap();
+            let d = 5u32;
+            let want = reference_cum(&p, d);
+            for (mode, pool) in [("fresh", 4usize), ("used", 2)] {
+                let got = if mode == "fresh" { engine_count(&mut MoveGenerator::new(), &p, d, pool) } else { engine_count(&mut used, &p, d, pool) };
+                evaluations += 1; ctx.count("sparse_positions_to_depth_5", 1);
+                ctx.distinct(p.key_hash() ^ 5 << 60 ^ (pool as u64) << 50);
+                match got {
+                    Ok(n) if n == want => {}
+                    Ok(n) => ctx.violation(&format!("c10:count-mismatch:{}", mode), &format!("count_positions({}) on {} = {}; the true number is {}", d, p.to_fen(), n, want), json!({"fen": p.to_fen(), "depth": d, "pool": pool, "generator": mode, "engine": n, "rules": want})),
+                    Err(e) => ctx.violation(&format!("c10:panic:{}", par::last_panic_location()), &format!("count_positions({}) on {} failed: {}", d, p.to_fen(), e), json!({"fen": p.to_fen(), "depth": d})),
+                }
+            }
+        }
+    }
     // every pool size 1..=16 at a moderate depth (the result must not depend on how rayon splits the root moves)
     for (ti, (p, maxd, _t)) in targets.iter().enumerate() {
         if o.replay.is_none() && (ti % (if q { 3 } else { 2 }) != 0 || p.legal_moves().len() > 24) { continue; }
